@@ -10,6 +10,7 @@ CONSTANTS
   MinV = {3}
   MaxV = {1, 3}
   Pairs = {13, 31, 33}
+  APairs = {31}
   Depth = 5
 CONSTRAINT Bound
 INVARIANT Emit1
